@@ -428,6 +428,12 @@ const P_STRS: &[&str] = &[
 ];
 
 fn pstr(rng: &mut Rng) -> String {
+    if rng.chance(1, 8) {
+        // every length up to ~100 turns up, so that fixed-size fast paths are crossed
+        let n = if rng.bool() { rng.range(40, 80) } else { rng.range(1, 140) };
+        let alpha = *rng.pick(&["v", "ab c", "x<y", "\u{e9}z", "q&'"]);
+        return alpha.chars().cycle().take(n).collect();
+    }
     let mut s = String::new();
     for _ in 0..rng.range(1, 2) {
         s.push_str(*rng.pick(P_STRS));
@@ -548,6 +554,35 @@ impl Scenario for Pipe {
         let mut open = vec![];
         for _ in 0..rng.range(1, 12) {
             p.builds.push(gen_build(rng, &mut open));
+        }
+        if rng.chance(1, 12) {
+            // cross size thresholds: indentation deeper than the preallocated 128 bytes,
+            // payloads longer than a pipe / BufReader capacity, a long name
+            match rng.below(3) {
+                0 => {
+                    let d = *rng.pick(&[16usize, 40, 90]);
+                    let mut pre: Vec<Build> = (0..d).map(|_| Build::Elem { empty: false, name: "n".into(), edits: vec![] }).collect();
+                    pre.append(&mut p.builds);
+                    p.builds = pre;
+                    for _ in 0..d {
+                        open.insert(0, "n".to_string());
+                    }
+                    p.note.push_str("stretched: deep; ");
+                }
+                1 => {
+                    let n = *rng.pick(&[130usize, 700, 9000]);
+                    let long: String = "x<&\"y ".chars().cycle().take(n).collect();
+                    p.builds.push(Build::Text(long.clone()));
+                    p.builds.push(Build::Elem { empty: true, name: "a".into(), edits: vec![Edit::Push("k".into(), long)] });
+                    p.note.push_str("stretched: long payloads; ");
+                }
+                _ => {
+                    let nm = format!("a{}", "n".repeat(*rng.pick(&[17usize, 65, 300])));
+                    p.builds.push(Build::Elem { empty: false, name: "ab".into(), edits: vec![Edit::Push("k".into(), "v".into()), Edit::SetName(nm.clone())] });
+                    p.builds.push(Build::End(nm));
+                    p.note.push_str("stretched: long name; ");
+                }
+            }
         }
         if rng.bool() {
             while let Some(n) = open.pop() {
